@@ -51,6 +51,8 @@ func (v *value) Interface() any     { return v.value }
 func (v *value) Len() int           { return len(v.Children) }
 func (v *value) IsNil() bool        { return v.isNil }
 
+var importSpecsType = reflect.TypeOf([]*ast.ImportSpec(nil))
+
 func snapshot(v reflect.Value, cmap ast.CommentMap) (val *value) {
 	t := v.Type()
 
@@ -66,6 +68,14 @@ func snapshot(v reflect.Value, cmap ast.CommentMap) (val *value) {
 			t:     t,
 			value: v.Interface(),
 		}
+	case importSpecsType:
+		// File.Imports lists the import specs of the import
+		// declarations a second time. They are compared where they
+		// are declared, next to their neighbours and with the comments
+		// of the declarations; in this list a deleted import would be
+		// charged with everything up to the next import, comments of
+		// other declarations included.
+		return &value{t: t}
 	}
 
 	if t.Implements(goast.NodeType) && !v.IsNil() {
